@@ -41,8 +41,10 @@ RoundTripInv == RoundTripOK
 TagsInv == TagsAgree
 ====
 ''' % (cases_f, pols_f)
+    # the export first (no invariants: TLC stops at the first false constant-level invariant), then the invariants
+    ctx.tlc("TextMC", "SPECIFICATION Spec\nCHECK_DEADLOCK FALSE\n", name="TextGen", files={"TextData.tla": datamod, "TextMC.tla": mc}, workers=1, timeout=1800, java_opts="-Xss256m")
     cfg = "SPECIFICATION Spec\nINVARIANTS ParsersInv RoundTripInv TagsInv\nCHECK_DEADLOCK FALSE\n"
-    r = ctx.tlc("TextMC", cfg, files={"TextData.tla": datamod, "TextMC.tla": mc}, workers=2, timeout=1800, java_opts="-Xss256m")
+    r = ctx.tlc("TextMC", cfg, files={"TextData.tla": datamod, "TextMC.tla": mc.replace(cases_f, cases_f + ".2").replace(pols_f, pols_f + ".2")}, workers=2, timeout=1800, java_opts="-Xss256m")
     if r["violated"]:
         ctx.note("TLC: %s is false for the tag tables of the current tree (the marshalled form does not read back; see the behavioural replay)" % r["violated"])
         ctx.cov["states"] += max(1, r["distinct"])
